@@ -66,8 +66,15 @@ Verdict(e) ==
       f4 == Fails(e.r, e.events[8])     \* back to r, through the caller's own (edited) array
       sc == IF e.events[4].obs.exc = "" /\ e.events[6].obs.exc = "" /\ ~Scaling(e.events[4].obs, e.events[6].obs)
             THEN {"Scaling|effective_resistance"} ELSE {}
+      \* r5 = 3/2 r2 (non-integral resistances): effective resistances scale by 3/2, the object equals a fresh twin
+      o5 == e.events[10]
+      s5 == (IF o5.obs.exc # "" THEN {"Applicable|update4(3/2 r2):" \o o5.obs.exc}
+             ELSE (IF ~SameObs(o5.obs, o5.twin) THEN {"Functional|after r5"} ELSE {})
+                  \cup (IF e.events[4].obs.exc = "" /\ \E a \in 1..Len(o5.obs.er) : \E b \in 1..Len(o5.obs.er) :
+                             ~CloseRel(2 * o5.obs.er[a][b], 3 * e.events[4].obs.er[a][b])
+                        THEN {"Scaling|effective_resistance(3/2)"} ELSE {}))
       all == f1 \cup {x \o "@update1" : x \in f2} \cup {x \o "@update2" : x \in f3}
-             \cup {x \o "@update3(same array)" : x \in f4} \cup sc
+             \cup {x \o "@update3(same array)" : x \in f4} \cup sc \cup s5
   IN IF all = {} THEN <<"ACCEPT", "", "", "n" \o ToString(e.n)>>
      ELSE <<"REJECT", "Multi", JoinSet(all), "n" \o ToString(e.n)>>
 Verdicts == TLCEval([k \in 1..Len(Trace) |-> Verdict(Trace[k])])
